@@ -610,6 +610,11 @@ fn build_case(ver: u16, bits: usize, method: u16, pw: &[u8], plain: &[u8], salt:
     Built { f, enc }
 }
 
+/// A two-entry archive (a plain stored entry, then one WinZip-AES entry) for other streams.
+pub fn aes_archive(ver: u16, bits: usize, method: u16, pw: &[u8], plain: &[u8], salt: &[u8]) -> Vec<u8> {
+    build_zip(&build_case(ver, bits, method, pw, plain, salt, false, true).f).0
+}
+
 /// Minimal central-directory walk for the repo fixture (no crate code involved).
 fn fixture_entries(zipb: &[u8]) -> Vec<(String, Fields)> {
     let rd16 = |o: usize| u16::from_le_bytes([zipb[o], zipb[o + 1]]) as usize;
